@@ -400,6 +400,7 @@ ForgeTable ==
                  ban |-> {"yes"}, jret |-> {"absent", "notjoin"}],
      mlreq  |-> [origin |-> {"X"}, usrv |-> {"X"}, room |-> {"other"}],
      invreq |-> [room |-> {"other"}, e_type |-> {"other"}, e_mship |-> {"join"}, e_skey |-> {"otherlocal", "sender"},
+                 e_ssrv |-> {"R"},      \* the inviter is made a user of the invited user's own server
                  e_room |-> {"other"}, e_sig |-> {"none", "wrongkey", "other"}]]
 
 EvField(f) == CASE f = "e_type" -> "type" [] f = "e_mship" -> "mship" [] f = "e_skey" -> "skey"
